@@ -21,7 +21,7 @@ func c10(r *core.Report) {
 	ruleReassemblyKeyFrag(r, "C10-KEY")
 	ruleReassemblyKeyMbapp(r, "C10-KEY")
 	r.Rule("C10-COMPLETE", "assembly/delivery only after the completion test; the test covers every part", 5)
-	ruleComplete(r)
+	ruleComplete(r, "C10-COMPLETE")
 	r.Rule("C10-COPY-THEN-MARK", "a part is copied before it is marked present", 1)
 	r.Rule("C10-OWN-COPY", "fragments are copied out of the borrowed packet buffer", 2)
 	ruleCopies(r)
@@ -317,7 +317,7 @@ func ruleReassemblyKeyMbapp(r *core.Report, rule string) {
 	}
 }
 
-func ruleComplete(r *core.Report) {
+func ruleComplete(r *core.Report, ruleID string) {
 	p := r.P
 	ht := needFn(r, "s/fragswarm", "swarm.handleTell")
 	addPart := needFn(r, "s/fragswarm", "aggregator.addPart")
@@ -331,17 +331,17 @@ func ruleComplete(r *core.Report) {
 	}
 	cutT := core.CutWhere(core.BoolCallGuard(func(c *ssa.CallCommon) bool { return core.IsCallToFn(c, addPart) }, true))
 	for _, ci := range core.CallsToFn(ht, assemble) {
-		r.Check(core.GuardEdges(ht, cutT) > 0 && core.GuardedFromEntry(ht, ci.(ssa.Instruction), cutT), "C10-COMPLETE", core.FnName(ht)+" assemble", p.Pos(ci.Pos()), "assembly is reachable only when addPart reported completion", "a message is assembled and delivered although addPart did not report it complete: a message with missing fragments is delivered")
+		r.Check(core.GuardEdges(ht, cutT) > 0 && core.GuardedFromEntry(ht, ci.(ssa.Instruction), cutT), ruleID, core.FnName(ht)+" assemble", p.Pos(ci.Pos()), "assembly is reachable only when addPart reported completion", "a message is assembled and delivered although addPart did not report it complete: a message with missing fragments is delivered")
 		// same aggregator
 		var ap ssa.CallInstruction
 		for _, a := range core.CallsToFn(ht, addPart) {
 			ap = a
 		}
-		r.Check(ap != nil && core.SameSource(ap.Common().Args[0], ci.Common().Args[0]), "C10-COMPLETE", core.FnName(ht)+" same aggregator", p.Pos(ci.Pos()), "the aggregator assembled is the one the part was added to", "the aggregator that is assembled is not the one the part was added to")
+		r.Check(ap != nil && core.SameSource(ap.Common().Args[0], ci.Common().Args[0]), ruleID, core.FnName(ht)+" same aggregator", p.Pos(ci.Pos()), "the aggregator assembled is the one the part was added to", "the aggregator that is assembled is not the one the part was added to")
 	}
 	cutC := core.CutWhere(core.BoolCallGuard(func(c *ssa.CallCommon) bool { return core.IsCallToFn(c, isComplete) }, true))
 	for _, ci := range core.CallsToFn(hp, withBuffer) {
-		r.Check(core.GuardEdges(hp, cutC) > 0 && core.GuardedFromEntry(hp, ci.(ssa.Instruction), cutC), "C10-COMPLETE", core.FnName(hp)+" withBuffer", p.Pos(ci.Pos()), "the buffer is handed out only when the collector is complete", "the reassembly buffer is handed to the application although the collector is not complete")
+		r.Check(core.GuardEdges(hp, cutC) > 0 && core.GuardedFromEntry(hp, ci.(ssa.Instruction), cutC), ruleID, core.FnName(hp)+" withBuffer", p.Pos(ci.Pos()), "the buffer is handed out only when the collector is complete", "the reassembly buffer is handed to the application although the collector is not complete")
 	}
 	// completion tests: true only by falling out of a loop over all parts
 	for _, fn := range []*ssa.Function{addPart, allSet} {
@@ -399,7 +399,7 @@ func ruleComplete(r *core.Report) {
 				why = "true can be returned before every part was examined"
 			}
 		}
-		r.Check(ok, "C10-COMPLETE", core.FnName(fn)+" covers all parts", p.Pos(fn.Pos()), "true is returned only after the loop over all parts ran to its end; inside the loop only false is returned", "the completion test can report complete without examining every part ("+why+"): a message with missing fragments is delivered")
+		r.Check(ok, ruleID, core.FnName(fn)+" covers all parts", p.Pos(fn.Pos()), "true is returned only after the loop over all parts ran to its end; inside the loop only false is returned", "the completion test can report complete without examining every part ("+why+"): a message with missing fragments is delivered")
 	}
 }
 
